@@ -315,15 +315,20 @@ func checkC20(c CaseC20, info *Info) *Failure {
 			return mism("x2j.XmlNewJson (one-segment new key "+pair1+")", string(j), string(w1j))
 		}
 	}
-	pair := dpath + ":n1.n2"
-	if !strings.Contains(dpath, "*") {
+	// new keys that are element names, and new keys whose last member is an attribute key or the text key
+	for _, newKey := range []string{"n1.n2", "rec.-id", "rec.#text"} {
+		if strings.Contains(dpath, "*") {
+			break
+		}
+		pair := dpath + ":" + newKey
 		nm, nerr := core.NewMap(pair)
 		var wantNX, wantNJ []byte
+		var wantNXerr error
 		if nerr == nil {
-			wantNX, _ = nm.Xml()
+			wantNX, wantNXerr = nm.Xml() // an attribute key holding a map cannot be encoded: the composition's error
 			wantNJ, _ = nm.Json()
 		}
-		if x, e := x2j.XmlNewXml(doc, pair); !eqErr(e, nerr) || (e == nil && !bytes.Equal(x, wantNX)) {
+		if x, e := x2j.XmlNewXml(doc, pair); (nerr == nil && !eqErr(e, wantNXerr)) || (nerr != nil && e == nil) || (e == nil && !bytes.Equal(x, wantNX)) {
 			return mism("x2j.XmlNewXml", string(x), string(wantNX))
 		}
 		if j, e := x2j.XmlNewJson(doc, pair); !eqErr(e, nerr) || !bytes.Equal(j, wantNJ) {
@@ -511,6 +516,11 @@ func checkC20(c CaseC20, info *Info) *Failure {
 		// a text of the same meaning that spells one top-level key twice (the decoder keeps the last occurrence)
 		jb = dupTopKey(jb, c.Value, c.Key)
 		info.Class("JSON text with a duplicated top-level key")
+	}
+	if len(jb)%3 == 0 {
+		// the same value in another producer's spelling: \/ and \u escapes in strings, N.0 for integers, blanks
+		jb = respellJSON(jb, 1+len(jb)%15)
+		info.Class("JSON text respelled")
 	}
 	jb = reuseBuffer(jb, false, func(b []byte) {
 		j2x.JsonToMap(b)
